@@ -356,7 +356,7 @@ func setPatchDiffElementContext(patch []patchElement, d *DiffElement) ([]patchEl
 		return nil, fmt.Errorf("expected path for array. got %q", patch[2].Path)
 	}
 	switch {
-	case (patch[2].Op == "test" || patch[2].Op == "add") && thirdIndex <= secondIndex:
+	case patch[1].Op == "test" && (patch[2].Op == "test" || patch[2].Op == "add") && thirdIndex <= secondIndex:
 		// Before and after context.
 		before, err := NewJsonNode(patch[0].Value)
 		if err != nil {
